@@ -113,7 +113,8 @@ StdConstraints(t) ==
       \cup (IF ~(t.k = "choice" /\ t.ub.n = 2 /\ t.ext) THEN {"NGAP-PDU is not an extensible CHOICE of three"} ELSE {})
 
 Explain(e) ==
-   IF e.ev # "Build" THEN No("no action of the specification matches this event")
+   IF e.ev = "Held" THEN HeldVerdict(e)
+   ELSE IF e.ev # "Build" THEN No("no action of the specification matches this event")
    ELSE IF ~ArgsInRange(e.args) THEN (IF e.err /\ ~e.panic THEN Ok ELSE No("an out-of-range identifier was not refused with an error"))
    ELSE IF e.err THEN No("builder failed for in-range arguments")
    ELSE LET d == NgapDecode(e.bytes) IN
